@@ -134,7 +134,7 @@ MOut(g, vs, hs) ==
 (* whenever nothing is unfinished (every item put so far was taken and its block has exited), pending joins may return *)
 Zero(g) == [g EXCEPT !.jzero = IF g.puts = g.exits THEN @ \cup g.jpend ELSE @]
 
-QMon(g0, e) ==
+QMonStep(g0, e) ==
   LET g == [g0 EXCEPT !.pos = @ + 1] IN
   CASE e.e = "put" -> Zero([g EXCEPT !.puts = @ + 1])
     [] e.e = "enter" ->
@@ -159,6 +159,12 @@ QMon(g0, e) ==
          (* closing probe: with nothing unfinished one more task_done() must raise ValueError, i.e. nothing was left marked/unmarked *)
          MOut(g, IF g.puts = g.exits THEN Chk("C20.count", -1, e.probe_verr) ELSE Chk("C20.count", -1, ~e.probe_verr), Hit("C20.count", TRUE))
     [] OTHER -> g
+
+(* at every record: an item that was put is either still in the queue or was handed to a block - none is lost on the
+   way (e.g. taken out for a consumer that is then cancelled before it entered its block) *)
+QMon(g0, e) ==
+  LET g == QMonStep(g0, e) IN
+  MOut(g, Chk("C20.lost", -1, e.qsize = g.puts - Cardinality(g.taken)), {})
 
 (* ---- the model checked by TLC: environment + monitor + history for replay ------------------------------------------ *)
 VARIABLES st, g, hist
